@@ -722,7 +722,8 @@ type verifyEv struct {
 	Via     string         `json:"via"`     // "hook" (secret table, exact clock) | "public" (TsigVerify, one secret, wall clock) | "server" | "transfer"
 	Secrets map[string]int `json:"secrets"` // key name as spelled in the table -> secret index (via = public: "" -> index)
 	Got     string         `json:"got"`     // "" = verified, else the error text
-	Signed  bool           `json:"signed"`  // server: the handler saw IsTsig() != nil
+	Signed  bool           `json:"signed"`  // server: the handler saw IsTsig() != nil; conn: the message read carries a TSIG
+	Handed  []int          `json:"handed,omitempty"` // env: the clock when the message was handed to the sender (48-bit limbs)
 }
 
 type tsigFields struct {
@@ -948,6 +949,102 @@ func record(which, out string, n int) {
 		emit("unsigned:opt-last", o, reqmac, timers, now, "hook", table)
 		emit("unsigned:opt-last", o, reqmac, timers, now, "public", single)
 	}
+	// the reading ends: dns.Conn.ReadMsg and Transfer.ReadMsg on signed messages -- on a connection that has written
+	// nothing (the receiving end of a signed UPDATE / NOTIFY, a server built on Conn), that has written an unsigned
+	// message, or (baseline) that has written the signed request the message answers.  "Verified" = no error and the
+	// message carries a TSIG; the specification judges the octets against the request MAC the connection holds.
+	for c := 0; c < 20*n; c++ {
+		m := msgs[rnd.Intn(len(msgs))].Copy()
+		alg := algs[rnd.Intn(5)]
+		key := keys[rnd.Intn(2)]
+		si := rnd.Intn(len(secrets))
+		tab := map[string]int{key: si}
+		st := map[string]string{key: b64(secrets[si])}
+		prior := []string{"nothing", "nothing", "unsigned", "signed"}[rnd.Intn(4)]
+		reader := []string{"conn", "conn", "transfer"}[rnd.Intn(3)]
+		fc := pipe.New()
+		var co *dns.Conn
+		var tr *dns.Transfer
+		if reader == "conn" {
+			co = &dns.Conn{Conn: fc, TsigSecret: st}
+			if rnd.Intn(2) == 0 {
+				co = &dns.Conn{Conn: fc, TsigProvider: dns.VerifTsigSecretProvider(st)}
+			}
+		} else {
+			tr = &dns.Transfer{Conn: &dns.Conn{Conn: fc}, TsigSecret: st}
+		}
+		write := func(q *dns.Msg) error {
+			if co != nil {
+				return co.WriteMsg(q)
+			}
+			return tr.WriteMsg(q)
+		}
+		now := time.Now().Unix()
+		var reqmac []byte
+		if prior != "nothing" {
+			q := new(dns.Msg)
+			q.SetQuestion("q.example.", dns.TypeSOA)
+			if prior == "signed" {
+				q.SetTsig(key, alg, 300, now)
+			}
+			if err := write(q); err != nil {
+				hx.Die("writing the request: %v", err)
+			}
+			if prior == "signed" {
+				qm := new(dns.Msg)
+				if err := qm.Unpack(fc.Written[0][2:]); err != nil || qm.IsTsig() == nil {
+					hx.Die("the written request carries no TSIG")
+				}
+				reqmac, _ = hex.DecodeString(qm.IsTsig().MAC)
+			}
+		}
+		variant := []string{"right", "right", "wrong-secret", "altered-mac", "unknown-key", "unsigned", "altered-body"}[rnd.Intn(7)]
+		var octets []byte
+		if variant == "unsigned" {
+			octets, _ = m.Pack()
+		} else {
+			k, sec := key, secrets[si]
+			switch variant {
+			case "wrong-secret":
+				sec = secrets[(si+1)%len(secrets)]
+			case "unknown-key":
+				k = "nobody.example."
+			}
+			m.SetTsig(k, alg, 300, now)
+			var err error
+			octets, _, err = dns.TsigGenerate(m, b64(sec), hex.EncodeToString(reqmac), false)
+			if err != nil {
+				hx.Die("signing: %v", err)
+			}
+			switch variant {
+			case "altered-mac":
+				flipBit(octets, 8*(len(octets)-7)) // last MAC octet (original id, error, other len follow)
+			case "altered-body":
+				flipBit(octets, 23)
+			}
+		}
+		fc.Feed(pipe.Frame(octets))
+		fc.EOF = true
+		var got *dns.Msg
+		var err error
+		p := hx.Catch(func() {
+			if co != nil {
+				got, err = co.ReadMsg()
+			} else {
+				got, err = tr.ReadMsg()
+			}
+		})
+		idx++
+		e := verifyEv{Ev: "verify", I: idx, What: fmt.Sprintf("%s.ReadMsg after writing %s: %s message (%s)", reader, prior, variant, alg),
+			Octets: hx.FromBytes(octets), Reqmac: hx.FromBytes(reqmac), Now: limbs(uint64(time.Now().Unix())), Via: "conn", Secrets: tab,
+			Got: errText(err), Signed: got != nil && got.IsTsig() != nil}
+		if p != "" {
+			sum.Mis("tsig/verify:panic", "panic: "+p, e)
+			e.Got = "panic: " + p
+		}
+		w.Emit(e)
+		sum.Evaluations++
+	}
 	sum.Nontrivial = idx
 	sum.Print()
 }
@@ -967,6 +1064,7 @@ type specLine struct {
 	Digest hx.B   `json:"digest"`
 	Mac    hx.B   `json:"mac"`
 	TimeOk bool   `json:"timeok"`
+	Fresh  *bool  `json:"fresh"` // env events that say when the message was handed to the sender: time signed >= that - 1 s
 }
 
 func whatClass(w string) string { return w }
@@ -995,8 +1093,11 @@ func judge(tracePath, specPath string) {
 		}
 		sum.Evaluations++
 		real := e.Got == ""
-		if e.Via == "server" || e.Via == "server-tsig-off" { // ResponseWriter.TsigStatus() is nil for an unsigned request too: verified = signed and nil
+		if e.Via == "server" || e.Via == "server-tsig-off" || e.Via == "conn" { // ResponseWriter.TsigStatus() is nil for an unsigned request too: verified = signed and nil
 			real = real && e.Signed
+		}
+		if s.Fresh != nil && !*s.Fresh {
+			sum.Mis("tsig/sign:stale-time-signed:"+e.Via, fmt.Sprintf("%s: the time signed of the TSIG is more than a second older than the moment the message was handed to the sender", e.What), e)
 		}
 		if e.Via == "server-out-noted" { // TSIG error replies the RFC wants unsigned: what the library sends is recorded, not judged
 			nnoted++
